@@ -304,6 +304,7 @@ class Ctx:
                     "traces_validated_against_impl": 0, "disagreements": 0, "oracle_failures": 0,
                     "distribution": {}}
         self.notes = []
+        self.extra_disagreements = []   # (case, impl, model-prediction) found by a batch oracle
         self.proof = None
         self.assumptions = []
 
@@ -434,7 +435,7 @@ def standard_flow(ctx, feat, gen_cases, oracle=None, nontrivial=None, classify=N
         if regen:
             regen(ctx)
         proof_ok = ctx.coq()
-        ctx.build(feat, model=model)
+        ctx.build(feat, model=True)
     except BuildError as e:
         ctx.log(str(e))
         ctx.violation({"kind": "build-failure", "detail": str(e)[-3000:],
@@ -476,6 +477,7 @@ def standard_flow(ctx, feat, gen_cases, oracle=None, nontrivial=None, classify=N
                     ctx.known(k, describe(c) if describe else c)
                 else:
                     failures.append((c, i, f))
+    disagreements.extend(ctx.extra_disagreements)
     cov["distinct_nontrivial"] += nt
     cov["disagreements"] += len(disagreements)
     cov["oracle_failures"] += len(failures)
